@@ -4,6 +4,9 @@
 Case kinds (abstract inputs; the same input goes to the real code and to the Coq model):
   struct   an expression over analyses (any bracketing, `sum([...])`, with_model leaves, the same
            analysis twice, with_free_parameters anywhere): class and members of the result, or the error
+  (every kind also with the SAME analysis object written more than once -- a + b + a, a + (b + a),
+   (a + b) + (a + b), sum([c, c, c]) and random repetitions -- and with distinct analyses that compare
+   and hash equal; hist / idx histories of such sums start with evaluations made before any pool exists)
   hist     a sum of plain analyses + a history of evaluations (some raising FitException / ValueError),
            visualize calls (through AnalysisPool.map when a pool exists), changes of n_cores (setter or
            general.yaml), and a scripted schedule of the pool for every call
@@ -414,7 +417,7 @@ def gen_cases(ctx):
     # ---- real fits: plain / with_model / free (/ free over own models), any bracketing, 1-2 cores
     for k in range(16 if not thorough else 60):
         variant = ["plain", "own", "free", "plain", "own", "free", "both", "plain"][k % 8]
-        cases.append(gen_fit_case(rng, variant, 2 if k % 2 == 1 else None, repeated=k % 5 == 2))
+        cases.append(gen_fit_case(rng, variant, 2 if k % 2 == 1 else None, repeated=k % 5 == 2, twinned=k % 8 in (3, 4)))
     # ---- real fits of the named shapes with a repeated analysis
     shapes = dup_shapes(lambda j: {"j": j})
     for si, variant, cc in [(0, "plain", None), (1, "plain", 2), (2, "free", 2), (3, "own", None), (0, "both", None)]:
@@ -480,7 +483,7 @@ def gen_idx_case(rng, variant, vals_pool, conf_cores=None, repeated=False, twinn
     return case
 
 
-def gen_fit_case(rng, variant, conf_cores=None, repeated=False, skeleton=None):
+def gen_fit_case(rng, variant, conf_cores=None, repeated=False, skeleton=None, twinned=False):
     shape, pids = gen_shape_and_pids(rng)
     expr, ids, hm, n, nd = gen_members(rng, variant in ("own", "both"), repeated, skeleton)
     own = gen_own(rng, ids, hm, pids)
@@ -489,6 +492,8 @@ def gen_fit_case(rng, variant, conf_cores=None, repeated=False, skeleton=None):
         free = [{"prior": p} for p in sorted(set(rng.sample(pids, rng.randint(1, min(2, len(pids))))))]
         expr = {"free": expr}
     ads = gen_ads(rng, nd, len(pids), [])
+    if twinned and not repeated and skeleton is None:
+        twin(rng, ads)
     case = {"kind": "fit", "ads": ads, "expr": expr, "shape": shape, "default": pids, "own": own, "free": free,
             "mod_delta": rng.choice([-4, 3, 7])}
     if conf_cores:
@@ -937,10 +942,15 @@ def run(ctx):
                 "with_model and free-parameter sums on 1-2 cores). Non-trivial: struct with >= 3 analyses; hist with a pool whose "
                 "scripted schedule withholds a result at least once, that visualizes through the pool or that is used after a "
                 "raising call; idx with an effective free parameter, an own model, a pool visualize or a withholding schedule; "
-                "every real fit. distinct = distinct abstract input")
+                "every real fit. Every kind contains sums in which the same analysis object is written more than once (the named "
+                "shapes a+b+a, a+(b+a), (a+b)+(a+b), sum([c,c,c]) in every run + random repetitions) and distinct analyses "
+                "that compare/hash equal, evaluated serially before any pool exists and through the pool. "
+                "distinct = distinct abstract input")
     ctx.trusted = [
         "Coq 8.16.1 kernel incl. vm_compute",
-        "correspondence harness c15.py / impl/c15_impl.py: harness analyses (affine, integer or k/1024 valued => float sums exact), "
+        "correspondence harness c15.py / impl/c15_impl.py: harness analyses (affine, integer or k/1024 valued => float sums exact; "
+        "__eq__/__hash__ by content; modify_before_fit changes the object in place and returns it, so an object written k times "
+        "is modified k times - Model.fresh_members / modf_member), "
         "expression builder, desugaring of sum([...]) into a left fold of +, model builder from prior-id lists, "
         "canonical numbering of prior identities (by Prior.id)",
         "schedule steering: the main-process side of each AnalysisProcess.queue is wrapped by a proxy whose empty() follows the "
@@ -1009,6 +1019,7 @@ def run(ctx):
                 elif op[0] != "modify":
                     ctx.hist("scripted_passes", len(op[2]))
         if c["kind"] == "fit":
+            ctx.hist("equal_twins:fit", has_twin(c))
             ctx.hist("fit_variant", expected_struct(c)["kind"] + ("+own" if c.get("free") is not None and c["own"] else ""))
             ctx.hist("fit_cores", c.get("conf_cores", 1))
         ctx.oracle["cases"] += 1
@@ -1073,7 +1084,9 @@ MANIFEST = {
             "availability masks = every schedule, histories of evaluations / visualize calls through map / raising calls of several "
             "exception classes / changes of n_cores), FreeParameterAnalysis/CombinedModelAnalysis.modify_model (sharing "
             "characterisation and |free|*n+|shared| count), the fit pipeline modify_before_fit -> make_result -> save_results "
-            "(position i = analysis i = child i = folder i) and an end-to-end statement over expressions; the model is parametrised "
+            "(position i = analysis i = child i = folder i), multiplicity of repeated analyses (C15_sum_multiplicity, "
+            "C15_serial/pool_multiplicity, C15_member_multiplicity, C15_free_params_count_of_expr; a sum over de-duplicated "
+            "analyses refuted) and an end-to-end statement over expressions; the model is parametrised "
             "by the recorded defects; vm_compute correspondence with the running code under externally steered pool schedules, "
             "real MockSearch fits, and a direct property oracle on every generated case",
     "note": "Trusted: Coq kernel + vm_compute, the correspondence harness incl. the queue proxies that steer pool schedules. "
